@@ -2,53 +2,74 @@
 Require Import Base.Bytes Base.GoInt Base.Reply Mem.Types Mem.Strings Mem.Lists.
 Local Open Scope Z_scope.
 
-(* [hint] is the reply observed on the implementation; only commands whose result depends on
-   Go map iteration order / randomness consult it (acceptor form), all others ignore it. *)
+(* A command family: given the (already purged) database, the clock in s and ms, the
+   lower-cased command name, the full argument vector and the reply observed on the
+   implementation ([hint]: consulted only by commands whose result depends on Go map iteration
+   order / randomness -- acceptor form), returns None when the name is not one of its commands.
+   Each family file under Mem/ defines its own [<family>_dispatch]; [families] lists them. *)
+Definition family := db -> Z -> Z -> bytes -> list bytes -> reply -> option (reply * db).
+
+Definition strings_dispatch : family := fun d now nowms n args hint =>
+  if is n (B "set") then Some (exec_set d now args)
+  else if is n (B "get") then Some (exec_get d args)
+  else if is n (B "getrange") then Some (exec_getrange d args)
+  else if is n (B "setrange") then Some (exec_setrange d args)
+  else if is n (B "mget") then Some (exec_mget d args)
+  else if is n (B "mset") then Some (exec_mset d args)
+  else if is n (B "setex") then Some (exec_setex d now args)
+  else if is n (B "setnx") then Some (exec_setnx d args)
+  else if is n (B "strlen") then Some (exec_strlen d args)
+  else if is n (B "incr") then Some (exec_incr d args)
+  else if is n (B "decr") then Some (exec_decr d args)
+  else if is n (B "incrby") then Some (exec_incrby d args)
+  else if is n (B "decrby") then Some (exec_decrby d args)
+  else if is n (B "append") then Some (exec_append d args)
+  else if is n (B "del") then Some (exec_del d args)
+  else if is n (B "exists") then Some (exec_exists d args)
+  else if is n (B "keys") then Some (exec_keys d args)
+  else if is n (B "expire") then Some (exec_expire d now args)
+  else if is n (B "persist") then Some (exec_persist d args)
+  else if is n (B "ttl") then Some (exec_ttl d now args)
+  else if is n (B "type") then Some (exec_type d args)
+  else if is n (B "rename") then Some (exec_rename d args)
+  else if is n (B "ping") then Some (exec_ping d args)
+  else None.
+
+Definition lists_dispatch : family := fun d now nowms n args hint =>
+  if is n (B "llen") then Some (exec_llen d args)
+  else if is n (B "lindex") then Some (exec_lindex d args)
+  else if is n (B "lpos") then Some (exec_lpos d args)
+  else if is n (B "lpop") then Some (pop_cmd true d args)
+  else if is n (B "rpop") then Some (pop_cmd false d args)
+  else if is n (B "lpush") then Some (push_cmd true true d args)
+  else if is n (B "lpushx") then Some (push_cmd true false d args)
+  else if is n (B "rpush") then Some (push_cmd false true d args)
+  else if is n (B "rpushx") then Some (push_cmd false false d args)
+  else if is n (B "lset") then Some (exec_lset d args)
+  else if is n (B "lrem") then Some (exec_lrem d args)
+  else if is n (B "ltrim") then Some (exec_ltrim d args)
+  else if is n (B "lrange") then Some (exec_lrange d args)
+  else if is n (B "lmove") then Some (exec_lmove d args)
+  else if is n (B "blpop") then Some (exec_bpop true d nowms args)
+  else if is n (B "brpop") then Some (exec_bpop false d nowms args)
+  else None.
+
+Definition families : list family := [strings_dispatch; lists_dispatch].
+
+Fixpoint dispatch (fs : list family) (d : db) (now nowms : Z) (n : bytes) (args : list bytes)
+         (hint : reply) : reply * db :=
+  match fs with
+  | [] => (err_other, d)                              (* unknown command *)
+  | f :: r => match f d now nowms n args hint with
+              | Some res => res
+              | None => dispatch r d now nowms n args hint
+              end
+  end.
+
 Definition exec_cmd (d : db) (now nowms : Z) (args : list bytes) (hint : reply) : reply * db :=
   match args with
   | [] => (err_other, d)
-  | name :: _ =>
-    let n := lower name in
-    if is n (B "set") then exec_set d now args
-    else if is n (B "get") then exec_get d args
-    else if is n (B "getrange") then exec_getrange d args
-    else if is n (B "setrange") then exec_setrange d args
-    else if is n (B "mget") then exec_mget d args
-    else if is n (B "mset") then exec_mset d args
-    else if is n (B "setex") then exec_setex d now args
-    else if is n (B "setnx") then exec_setnx d args
-    else if is n (B "strlen") then exec_strlen d args
-    else if is n (B "incr") then exec_incr d args
-    else if is n (B "decr") then exec_decr d args
-    else if is n (B "incrby") then exec_incrby d args
-    else if is n (B "decrby") then exec_decrby d args
-    else if is n (B "append") then exec_append d args
-    else if is n (B "del") then exec_del d args
-    else if is n (B "exists") then exec_exists d args
-    else if is n (B "keys") then exec_keys d args
-    else if is n (B "expire") then exec_expire d now args
-    else if is n (B "persist") then exec_persist d args
-    else if is n (B "ttl") then exec_ttl d now args
-    else if is n (B "type") then exec_type d args
-    else if is n (B "rename") then exec_rename d args
-    else if is n (B "ping") then exec_ping d args
-    else if is n (B "llen") then exec_llen d args
-    else if is n (B "lindex") then exec_lindex d args
-    else if is n (B "lpos") then exec_lpos d args
-    else if is n (B "lpop") then pop_cmd true d args
-    else if is n (B "rpop") then pop_cmd false d args
-    else if is n (B "lpush") then push_cmd true true d args
-    else if is n (B "lpushx") then push_cmd true false d args
-    else if is n (B "rpush") then push_cmd false true d args
-    else if is n (B "rpushx") then push_cmd false false d args
-    else if is n (B "lset") then exec_lset d args
-    else if is n (B "lrem") then exec_lrem d args
-    else if is n (B "ltrim") then exec_ltrim d args
-    else if is n (B "lrange") then exec_lrange d args
-    else if is n (B "lmove") then exec_lmove d args
-    else if is n (B "blpop") then exec_bpop true d nowms args
-    else if is n (B "brpop") then exec_bpop false d nowms args
-    else (err_other, d)
+  | name :: _ => dispatch families d now nowms (lower name) args hint
   end.
 
 (* one step at clock [now]: expired keys are invisible to every command *)
